@@ -48,7 +48,29 @@ func init() {
 			}
 			return strings.Join(out, ",")
 		})
-		return "check=" + chk + " len=" + ln + " values=" + vals
+		// GetAST lists the same entries as Values(): same order, same texts, same kinds
+		ast := guard(func() string {
+			e := enum.New("enum", text)
+			vs, err := e.Values()
+			an, err2 := e.GetAST()
+			if (err == nil) != (err2 == nil) {
+				return "DIFF:verdict"
+			}
+			if err != nil {
+				return "same"
+			}
+			if len(an.Children) != len(vs) {
+				return fmt.Sprintf("DIFF:count_%d_%d", len(an.Children), len(vs))
+			}
+			for i, v := range vs {
+				c := an.Children[i]
+				if c.Value != v.Value.String() || c.Comment != v.Comment || (!v.Value.IsNil() && c.SchemaType != string(v.Type)) {
+					return fmt.Sprintf("DIFF:entry_%d", i)
+				}
+			}
+			return "same"
+		})
+		return "check=" + chk + " len=" + ln + " values=" + vals + " ast=" + ast
 	}
 	handlers["enumeq"] = func(a []string) string {
 		rule, ex := unhex(a[0]), unhex(a[1])
